@@ -156,3 +156,71 @@ def graph_attributes(self: 'Graph', source: 'val', role: 'val', target: 'val') -
     requires(wf_triples(self.triples))
     ensures(result == attributes_of(select(self.triples, source, role, target), self.triples, self._top))
     induct('0', lambda: select(self.triples, source, role, target))
+
+
+# ---- set operations and re-entrancies (C15): contracts stated on the real methods and executed by the
+# native sweep; not proved (iteration over sets, slice assignment, deepcopy are outside the verified subset)
+
+@contract('penman.graph:Graph.__isub__', bounded=True, why='iteration over a set, slice assignment')
+def graph_isub(self: 'Graph', other: 'Graph') -> 'Graph':
+    modifies(self)
+    requires(wf_triples(self.triples) and wf_triples(other.triples))
+    ensures(result is self, label='in-place')
+    # order-preserving difference
+    ensures(self.triples == [t for t in old(self).triples if t not in other.triples], label='difference')
+    # markers of removed triples go, the others stay as they were
+    ensures(all((k in old(self).epidata) and (k not in other.triples) and markers_eq(self.epidata[k], old(self).epidata[k])
+                for k in self.epidata), label='markers-kept')
+    ensures(all((k in self.epidata) or (k in other.triples) for k in old(self).epidata), label='markers-only-removed-go')
+    # an explicit top is dropped once it no longer occurs in any remaining triple
+    ensures(self._top == (old(self)._top
+                          if any(old(self)._top == t[0] or old(self)._top == t[2] for t in self.triples) else None),
+            label='top')
+    ensures(other.triples == old(other).triples and other._top == old(other)._top, label='operand-kept')
+
+
+@contract('penman.graph:Graph.__ior__', bounded=True, why='iteration over a set, dict.update')
+def graph_ior(self: 'Graph', other: 'Graph') -> 'Graph':
+    modifies(self)
+    requires(wf_triples(self.triples) and wf_triples(other.triples))
+    ensures(result is self, label='in-place')
+    # order-preserving union: the triples of the other graph that are new, in their order, after one's own
+    ensures(self.triples == old(self).triples + [t for t in other.triples if t not in old(self).triples], label='union')
+    # every added triple carries its markers along
+    ensures(all(markers_eq(self.epidata.get(k), other.epidata[k]) for k in other.epidata), label='markers-carried')
+    ensures(all((k in old(self).epidata) or (k in other.epidata) for k in self.epidata), label='no-other-markers')
+    ensures(self._top == old(self)._top, label='top-kept')
+    ensures(other.triples == old(other).triples and other._top == old(other)._top, label='operand-kept')
+
+
+@contract('penman.graph:Graph.__or__', bounded=True, why='copy.deepcopy')
+def graph_or(self: 'Graph', other: 'Graph') -> 'Graph':
+    requires(wf_triples(self.triples) and wf_triples(other.triples))
+    ensures(result is not self and result is not other, label='new-graph')
+    ensures(result.triples == self.triples + [t for t in other.triples if t not in self.triples], label='union')
+    ensures(all(markers_eq(result.epidata.get(k), other.epidata[k]) for k in other.epidata), label='markers-carried')
+    ensures(result._top == self._top and len(result.metadata) == 0, label='top-and-metadata')
+    ensures(self.triples == old(self).triples and self._top == old(self)._top
+            and other.triples == old(other).triples and other._top == old(other)._top, label='operands-kept')
+
+
+@contract('penman.graph:Graph.__sub__', bounded=True, why='copy.deepcopy')
+def graph_sub(self: 'Graph', other: 'Graph') -> 'Graph':
+    requires(wf_triples(self.triples) and wf_triples(other.triples))
+    ensures(result is not self and result is not other, label='new-graph')
+    ensures(result.triples == [t for t in self.triples if t not in other.triples], label='difference')
+    ensures(result._top == (self._top if any(self._top == t[0] or self._top == t[2] for t in result.triples) else None),
+            label='top')
+    ensures(len(result.metadata) == 0, label='metadata')
+    ensures(self.triples == old(self).triples and self._top == old(self)._top
+            and other.triples == old(other).triples and other._top == old(other)._top, label='operands-kept')
+
+
+@contract('penman.graph:Graph.reentrancies', bounded=True, why='defaultdict, generator into dict')
+def graph_reentrancies(self: 'Graph') -> 'dict':
+    requires(wf_triples(self.triples))
+    # in-degree over edges (plus one for the top) minus one, listed only when positive
+    ensures(all(result[v] == len([t for t in self.edges() if t[2] == v]) + (1 if v == self.top else 0) - 1
+                and result[v] >= 1 for v in result), label='counts')
+    ensures(all((v in result) == (len([t for t in self.edges() if t[2] == v]) + (1 if v == self.top else 0) >= 2)
+                for v in self.variables()), label='listed-iff-reentrant')
